@@ -10,6 +10,9 @@ FCWu, FCWd (DESIGN.md 3/C02):
 * one-parameter lines (axes through lattice points, diagonals x = r y, near-degenerate
   diagonals x = y(1+d), mass paths): neighbouring seeds with different sancov branch-path
   signature are bisected to adjacent doubles, all doubles within +-W ulp are evaluated;
+* window edges: every located boundary on a near-degenerate line (offset <= 0.3 from another argument / 1 / 1/4)
+  is probed by the oracle on both sides and at 0.5, 0.8, 0.99 of its offset, whatever the width of the window;
+* overall scale: homogeneous functions are re-evaluated at 2^e, e = -120 .. 120 (only ratios are bounded);
 * oracles: (i) mpmath transcription of the defining expressions (oracle/ff_ref.py),
   |impl - ref| <= tol |ref| + tol * scale(largest argument); (ii) exact documented values for
   zero arguments; (iii) permutation symmetry and (iv) homogeneity on EVERY evaluated point
@@ -61,6 +64,11 @@ DEG = {"Iabc": -2, "Phi": 1, "lambda_2": 2}
 SORTING = {"Fa", "Fb", "Iabc", "Phi", "FPZ", "FSZ", "FCWl"}     # implementation sorts its arguments: bitwise symmetry
 GAP = 1e-3
 D = [0.0] + [s * 10.0 ** -k for k in range(13, 0, -1) for s in (1.0, -1.0)]
+D8 = [s * 10.0 ** (-k / 8.0) for k in range(8, 49) for s in (1.0, -1.0)]      # 8 offsets per decade, 1e-1 .. 1e-6
+EOFF = [s * e for e in (1e-3, 1e-2, 1e-1) for s in (1.0, -1.0)]               # base points next to 1, 1/4, another argument
+SCALES_E = [-120, -60, -52, -40, -20, 20, 40, 60, 120]                        # overall scales 2^e (exact rescaling)
+CHEAP = {"Fa", "Fb", "Iabc", "lambda_2"}                                      # oracle cost < 0.3 ms
+INSIDE = (0.5, 0.8, 0.99)                                                     # fractions of a boundary offset probed just inside it
 DQ = [0.0] + [s * 10.0 ** -k for k in (13, 10, 7, 5, 3, 1) for s in (1.0, -1.0)]     # quick tier: offsets sent to the oracle
 QU, QD = 2.0 / 3.0, -1.0 / 3.0
 CHARGES = [(QU, QD), (1.0, 1.0), (0.0, -1.0)]
@@ -84,6 +92,8 @@ def scale(fn, a):
         return m * m
     if fn == "Iabc":
         return 1.0 / (m * m) if m > 0 else 0.0
+    if fn in ("Fa", "Fb"):
+        return 0.0        # positive, monotonic, no zero on the domain: the natural scale is the value itself
     return min(1.0, m)
 
 
@@ -167,6 +177,8 @@ def acc_key(fn, a):
     if fn in ("FPZ", "FSZ"):
         if any(0 < abs(v - 0.25) < 1e-6 for v in a[:2]):
             return "%s:acc:arg-within-1e-6-of-1/4" % fn
+    if fn == "Iabc" and max(a[:3]) < SQRT_EPS:
+        return "Iabc:acc:max<4.8e-8"
     if fn == "Phi":
         c = _phi_class(*a[:3])
         if c == "small-u-series":
@@ -220,11 +232,13 @@ def transforms(fn, quick):
     if fn in FCW:
         return [((2, 3, 0, 1, 4, 5), 1.0)]
     if fn in THREE:
-        js = [-20, -7, -1, 1, 7, 20] if quick else [j for j in range(-20, 21) if j != 0]
+        js = sorted(set(([-7, -1, 1, 7] if quick else [j for j in range(-20, 21) if j != 0]) + SCALES_E))
         t = [(p, 1.0) for p in PERM3]
         t += [((0, 1, 2), 2.0 ** j) for j in js]
         t += [((0, 1, 2), k) for k in (3.0, 1e3, 1e-3)]
-        t += [((2, 0, 1), 2.0 ** 9), ((1, 2, 0), 3.0)]            # combined permutation + scaling
+        # combined permutation + scaling (every permutation at some extreme scale)
+        t += [((2, 0, 1), 2.0 ** 9), ((1, 2, 0), 3.0), ((2, 0, 1), 2.0 ** -60), ((1, 0, 2), 2.0 ** 60),
+              ((2, 1, 0), 2.0 ** -120), ((0, 2, 1), 2.0 ** 120), ((1, 2, 0), 2.0 ** -52)]
         return t
     return []
 
@@ -436,6 +450,9 @@ def oracle_chunk(chunk):
                     full = tuple(args) + tuple(extra)
                 elif group == "zero":
                     ref = rr[None]; full = tuple(args[1:])
+                elif isinstance(extra, tuple) and extra[0] == "k":
+                    # tuple scaled by 2^e: the definition is homogeneous of degree DEG, 2^(deg e) is exact
+                    ref = rr[fn] * mpf(2) ** (DEG[fn] * extra[1]); full = tuple(math.ldexp(x, extra[1]) for x in args)
                 else:
                     ref = rr[fn]; full = tuple(args)
                 if group == "zero":
@@ -453,6 +470,8 @@ def oracle_chunk(chunk):
                     if rr2 is None:
                         rr2 = refs(group, args, 30)
                     ref2 = rr2[(fn, extra[0], extra[1])] if group == "fCS" else (rr2[None] if group == "zero" else rr2[fn])
+                    if group not in ("fCS", "zero") and isinstance(extra, tuple) and extra[0] == "k":
+                        ref2 = ref2 * mpf(2) ** (DEG[fn] * extra[1])
                     if abs(ref2 - ref) > mpf(10) ** -10 * (abs(ref2) + mpf(sc)):
                         fails.append((fn, full, out, "oracle precision: %s vs %s" % (mpmath.nstr(ref, 20), mpmath.nstr(ref2, 20)), 0.0, 0.0, "oracle"))
                         continue
@@ -499,6 +518,7 @@ class Plan:
         self.fn, self.W = fn, W
         self.cmds = []
         self.oset = set()
+        self.scaled = {}          # scaled tuple -> (lattice tuple, e): tuple * 2^e, oracle = 2^(deg e) * definition(lattice tuple)
         self.nlines = 0
 
     def pts(self, label, pts, oracle=True):
@@ -551,6 +571,16 @@ def plan_two(fn, K, W, lits, quick):
         ots = pairo + (extra if (v in dec and not quick) else [t for t in cso if ok(t, v)] if v in dec else [])
         P.line("axis0", (0.0, v), (1.0, 0.0), lt + extra + pair, ots)
         P.line("axis1", (v, 0.0), (0.0, 1.0), lt + extra + pair, pairo if not quick else ())
+    # near-degenerate offset lines through base points NEXT TO 1, 1/4 and through the decade points: offsets on
+    # 8 points per decade; the window edges of the y ~ x / x ~ 1 expansions are located between them by bisection
+    for v in [c * (1 + e) for c in cen for e in EOFF] + sorted(dec):
+        if not ind(v):
+            continue
+        off = [v * (1 + d) for d in D + D8 if ind(v * (1 + d))]
+        offo = off if fn in CHEAP else [v * (1 + d) for d in Do if ind(v * (1 + d))]
+        other = [t for t in L + censeeds if ind(t) and ok(t, v)]
+        P.line("off0", (0.0, v), (1.0, 0.0), off + other, offo)
+        P.line("off1", (v, 0.0), (0.0, 1.0), off + other, ())
     for d in D:
         ts = [t for t in L + censeeds + litseeds if ind(t) and ind(t * (1 + d))]
         ots = [t for t in L + cso if ind(t) and ind(t * (1 + d))] if d in Do else ()
@@ -600,6 +630,12 @@ def plan_cs(fn, K, W, lits, quick):
         ots = pairo + curveo + cs if (not quick or v in half) else ()
         P.line("axis_xu", (0.0, v) + q, (1.0, 0.0, 0.0, 0.0), lt + extra + curve + pair, ots)
         P.line("axis_xd", (v, 0.0) + q, (0.0, 1.0, 0.0, 0.0), lt + extra + curve + pair, ots)
+    for v in [c * (1 + e) for c in cen for e in EOFF]:
+        off = [v * (1 + d) for d in D + D8 if ind(v * (1 + d))]
+        offo = [v * (1 + d) for d in Do if ind(v * (1 + d))]
+        other = [t for t in L + censeeds if ind(t) and ok(t, v)]
+        P.line("off_xu", (0.0, v) + q, (1.0, 0.0, 0.0, 0.0), off + other, offo)
+        P.line("off_xd", (v, 0.0) + q, (0.0, 1.0, 0.0, 0.0), off + other, offo if not quick else ())
     for d in D:
         ts = [t for t in L + censeeds + litseeds if ind(t) and ind(t * (1 + d))]
         ots = [t for t in (L if quick else L + cso) if ind(t) and ind(t * (1 + d))] if d in Do else ()
@@ -629,7 +665,14 @@ def plan_three(fn, K, W, lits, quick):
     # full lattice: relations on all; definition oracle on one representative per permutation class
     allp = [(x, y, z) for x in L for y in L for z in L]
     P.pts("lattice", allp, oracle=False)
-    P.oset.update((L[i], L[j], L[k]) for i in range(n) for j in range(i, n) for k in range(j, n))
+    reps = [(L[i], L[j], L[k]) for i in range(n) for j in range(i, n) for k in range(j, n)]
+    P.oset.update(reps)
+    # overall scales 2^e of (a stride-thinned set of) the lattice representatives: the property bounds only the ratios
+    stride = (2 if fn in CHEAP else 16) if quick else (1 if fn in CHEAP else 8)
+    for pnt in reps[::stride]:
+        for e in SCALES_E:
+            P.scaled[tuple(math.ldexp(x, e) for x in pnt)] = (pnt, e)
+    P.pts("scaled", list(P.scaled), oracle=True)
     # zeros
     P.pts("zero", [(0.0, 0.0, 0.0)] + [(0.0, 0.0, z) for z in L] + [(0.0, y, z) for y in L for z in L]
           + [(x, y, 0.0) for x in L[::max(1, K // 2)] for y in L[::max(1, K // 2)]] + [(x, 0.0, z) for x in L[::K] for z in L[::K]]
@@ -692,6 +735,16 @@ def plan_three(fn, K, W, lits, quick):
             P.line("axis0", (0.0, a_, b_), (1.0, 0.0, 0.0), ts, ots)
             P.line("axis1", (a_, 0.0, b_), (0.0, 1.0, 0.0), ts, ())
             P.line("axis2", (a_, b_, 0.0), (0.0, 0.0, 1.0), ts, ())
+    # offset lines (t, a, a(1+e)): two arguments already close to each other, the third one approaching them
+    for a_ in L[::4 * st]:
+        for e in EOFF:
+            b_ = a_ * (1 + e)
+            off = [c * (1 + d) for c in (a_, b_) for d in Dx + D8]
+            offo = off if fn in CHEAP else [c * (1 + d) for c in (a_, b_) for d in Dx if d in Dxo]
+            lo, hi = max(a_, b_) * g(1e-6), min(a_, b_) * g(1e6)
+            f = lambda ts: [t for t in ts if lo * (1 - 1e-9) <= t <= hi * (1 + 1e-9)]
+            P.line("off0", (0.0, a_, b_), (1.0, 0.0, 0.0), f(L + off), f(offo))
+            P.line("off2", (a_, b_, 0.0), (0.0, 0.0, 1.0), f(L + off), ())
     # near-degenerate diagonals (t, t(1+d), z0) in the three position pairs
     for z0 in B:
         for d in Dx:
@@ -735,6 +788,41 @@ def plan_phys(fn, consts, Km, W):
 
 
 # ------------------------------------------------------------------ main
+
+def boundary_offset(fn, aa, ab):
+    """aa, ab: the two adjacent argument tuples of a located regime boundary.  Returns None or
+    (i, c, delta): along the line the varying argument i sits at c (1 + delta) with |delta| <= 0.3, c = a fixed
+    argument of the line or one of the centres 1, 1/4 (dimensionless functions) - the attractor with smallest |delta|."""
+    n = nargs_sc(fn)
+    var = [i for i in range(n) if aa[i] != ab[i]]
+    if not var or any(aa[i] <= 0 for i in var):
+        return None
+    cands = [aa[j] for j in range(n) if j not in var and aa[j] > 0]
+    if fn not in THREE:
+        cands += [1.0, 0.25]
+    best = None
+    for i in var:
+        for c in cands:
+            d = aa[i] / c - 1
+            if d != 0 and abs(d) <= 0.3 and (best is None or abs(d) < abs(best[2])):
+                best = (i, c, d)
+    return best
+
+
+def inside_points(fn, aa, ab, fracs):
+    """points of the line at fractions of the boundary offset (f < 1: just inside the window)"""
+    bo = boundary_offset(fn, aa, ab)
+    if bo is None:
+        return []
+    i, c, d = bo
+    n = nargs_sc(fn)
+    var = [j for j in range(n) if aa[j] != ab[j]]
+    out = []
+    for f in fracs:
+        sfac = c * (1 + f * d) / aa[i]
+        out.append(tuple(aa[j] * sfac if j in var else aa[j] for j in range(len(aa))))
+    return out
+
 
 def get_consts(exe):
     p = subprocess.run([exe], input="consts\n", stdout=subprocess.PIPE, text=True, timeout=60)
@@ -782,6 +870,10 @@ def run(ctx):
     keep_nd = frozenset([0, 1, 2, 4, 8, 16, 32])
     ORACLE_ND = frozenset([0, 1, W]) if quick else frozenset([0, 1, 2, 8, 32])
     M_BD = 2 if quick else 8          # boundary crossings per (function, signature pair) sent to the definition oracle
+    # near-degenerate crossings (boundary offset |delta| <= 0.3 from another argument / 1 / 1/4) per signature pair:
+    # all of them for the cheap references, a few (spread evenly) for the expensive ones
+    m_nd = {"Phi": 3, "FPZ": 2, "FSZ": 2, "FCWl": 2, "f_CSd": 1, "f_CSu": 1}
+    M_ND = {fn: (10 ** 9 if (fn in CHEAP or fn in FCW) else m_nd[fn] * (1 if quick else 4)) for fn in ALL}
 
     # merge the physical FCWl plan into the FCWl job list as its own job (same function, same transforms)
     jobs = []
@@ -793,8 +885,10 @@ def run(ctx):
         for i in range(0, len(P.cmds), size):
             jobs.append([exe, P.fn, nargs[P.fn][0], xfset_text(P.fn, tr) if tr else "", tr, P.cmds[i:i + size], W, keep_nd, None])
     oset = {}
+    scaled = {fn: {} for fn in ALL}
     for P in plans + phys:
         oset.setdefault(P.fn, set()).update(P.oset)
+        scaled[P.fn].update(P.scaled)
     for j in jobs:
         j[8] = frozenset(oset[j[1]])
     for P in plans + phys:
@@ -824,7 +918,8 @@ def run(ctx):
         sigs = {fn: set() for fn in ALL}
         npts = {fn: 0 for fn in ALL}
         nrel = nmis = 0
-        for r in results:
+        def absorb(r):
+            nonlocal nrel, nmis
             fn = r["fn"]
             for a, v in r["seeds"].items():
                 seeds[fn].setdefault(a, v)
@@ -847,9 +942,9 @@ def run(ctx):
                          "%s%r = %r but %s(args permuted %r, scaled by %r) = %r  (deviation %.3e after rescaling, allowed %.3e) [%s]"
                          % (fn, a, out, fn, perm, k, v, dev, allowed, kind),
                          {"fn": fn, "args": [hexf(x) for x in a], "kind": kind, "tr": idx})
-        ctx.evals(sum(npts.values()))
-        ctx.note("relation_evaluations", nrel)
-        ctx.note("relation_mismatches_beyond_tolerance", nmis)
+        for r in results:
+            absorb(r)
+        results = None
 
         # ---------------- boundaries: continuity + selection for the oracle
         tasks = {}          # (group, key) -> items
@@ -875,6 +970,10 @@ def run(ctx):
                 return "zero"
             if dm != "ok":
                 return dm
+            if a in scaled[fn]:
+                base, e = scaled[fn][a]
+                tasks.setdefault((fn, base), []).append((fn, out, ("k", e)))
+                return "ok"
             if fn in CS:
                 tasks.setdefault(("fCS", a[:2]), []).append((fn, out, (a[2], a[3])))
             elif fn in FCW:
@@ -886,14 +985,15 @@ def run(ctx):
         undocumented, counts = {}, {}
         maxjump = {}
         nbd = 0
-        bd_sel = 0
+        bd_sel = nd_sel = nnd_found = 0
+        inside = {fn: set() for fn in ALL}
         for fn in ALL:
             isphys = fn in FCW
             # seeds
             for a in sorted(seeds[fn]):
                 out, sig, label = seeds[fn][a]
                 add_task(fn, a, out, label)
-            seeds[fn] = None
+            seeds[fn] = {}
             # boundaries
             bykey = {}
             for b in bds[fn]:
@@ -925,17 +1025,65 @@ def run(ctx):
                 # prefer crossings that lie inside the oracle domain; spread the selection evenly over them
                 good = [b for b in lst if any(domain(fn, x[2]) == "ok" for x in b[5] if x[0] == 0)]
                 m = M_BD if not isphys else len(good)
+                sel = good
                 if len(good) > m:
                     step = len(good) / float(m)
-                    good = [good[int(i * step)] for i in range(m)]
+                    sel = [good[int(i * step)] for i in range(m)]
+                # near-degenerate crossings: window edges of series / closed-form switches
+                nds = []
                 for b in good:
+                    p0 = [x for x in b[5] if x[0] == 0]
+                    if len(p0) == 2 and boundary_offset(fn, p0[0][2], p0[1][2]) is not None:
+                        nds.append(b)
+                nnd_found += len(nds)
+                if len(nds) > M_ND[fn]:
+                    step = len(nds) / float(M_ND[fn])
+                    nds = [nds[int(i * step)] for i in range(M_ND[fn])]
+                done = set()
+                for b in sel + nds:
+                    if id(b) in done:
+                        continue
+                    done.add(id(b))
                     bd_sel += 1
                     for nd, side, a, out, sig in b[5]:
                         if nd in ORACLE_ND:
                             add_task(fn, a, out, "boundary")
+                for b in nds:
+                    nd_sel += 1
+                    p0 = sorted((x for x in b[5] if x[0] == 0), key=lambda x: x[1])
+                    for q in inside_points(fn, p0[0][2], p0[1][2], INSIDE + ((1.01,) if fn in CHEAP else ())):
+                        if domain(fn, q) == "ok":
+                            inside[fn].add(q)
 
+        # ---------------- second harness pass: points just inside the located near-degenerate boundaries
+        jobs2 = []
+        for fn in ALL:
+            pts2 = sorted(inside[fn])
+            if pts2:
+                tr = transforms(fn, quick)
+                for i in range(0, len(pts2), 4000):
+                    ch = pts2[i:i + 4000]
+                    jobs2.append([exe, fn, nargs[fn][0], xfset_text(fn, tr) if tr else "", tr,
+                                  [_cmd_pts(fn, "inside", ch)], W, keep_nd, frozenset(ch)])
+        for r in pool.map(fx_job, jobs2, chunksize=1):
+            if "error" in r:
+                raise InfraError(r["error"])
+            absorb(r)
+        ninside = 0
+        for fn in ALL:
+            for a in sorted(seeds[fn] or ()):
+                out, sig, label = seeds[fn][a]
+                add_task(fn, a, out, "inside")
+                ninside += 1
+            seeds[fn] = None
+        ctx.evals(sum(npts.values()))
+        ctx.note("relation_evaluations", nrel)
+        ctx.note("relation_mismatches_beyond_tolerance", nmis)
         ctx.note("boundaries_located", nbd)
         ctx.note("boundary_crossings_sent_to_oracle", bd_sel)
+        ctx.note("near_degenerate_crossings_located", nnd_found)
+        ctx.note("near_degenerate_crossings_probed_inside", nd_sel)
+        ctx.note("inside_points", ninside)
 
         # ---------------- definition oracle
         tl = [(g, k, v) for (g, k), v in sorted(tasks.items(), key=lambda kv: (kv[0][0], tuple(map(repr, kv[0][1]))))]
@@ -1003,7 +1151,8 @@ def run(ctx):
     ctx.note("points_by_domain_class", {"%s:%s" % k: v for k, v in sorted(dom_counts.items())})
     ctx.assumptions += [
         "mpmath (pure python) polylog/log at >=30 digits (+5 digits per decade of degeneracy) is the definition oracle; every reported failure was re-derived with 30 more digits",
-        "floor of the accuracy tolerance: tol * scale, scale = max(x,y,z) for Phi, max^2 for lambda_2, 1/max^2 for Iabc, min(1, largest argument) for the dimensionless functions",
+        "floor of the accuracy tolerance: tol * scale, scale = max(x,y,z) for Phi, max^2 for lambda_2, 1/max^2 for Iabc, min(1, largest argument) for the dimensionless Barr-Zee functions, none for Fa/Fb (positive, no zero on the domain: pure relative 1e-4)",
+        "overall scales: the property bounds only the ratios; every evaluated point of Iabc/Phi/lambda_2 is re-evaluated at 2^e, e in {-120,-60,-52,-40,-20,20,40,60,120} (+ permuted), exact rescaling required (<= 4 ulp); the definition oracle at the scaled lattice tuples uses ref(2^e t) = 2^(deg e) ref(t), exact for the definition",
         "difference quotients FPZ, FSZ, FCWl, FCWu, FCWd with 0 < |1 - x/y| < 1e-3 are evaluated (relations, finiteness is C11's) but not compared with the definition",
         "zero arguments without a documented value (Phi, f_CSu, f_CSd(0,xd), one-zero Fa/Fb, FCWu/FCWd) are evaluated and reported in the evidence, not judged",
         "values strictly between lattice points inside one regime are not evaluated",
@@ -1016,9 +1165,14 @@ def run(ctx):
             "3-arg pair families at the extreme overall scales of every ratio class, triple/near-1 families at 3 scales; near-degenerate and "
             "lambda^2=0 seeds of the axis lines (3-arg: lines through every %s base point); offsets sent to the oracle: %s; "
             "%d crossings per (function, signature pair) of the located boundaries at ulp distances %s (all crossings enter the jump check). "
-            "distinct = (function, branch-path signature)"
+            "Near-degenerate lines: besides the axis lines, offset lines through base points c(1+e), c in {1, 1/4, another argument}, e = +-1e-3,1e-2,1e-1 "
+            "and through the decade points, offset seeds 8 per decade in [1e-6,1e-1]; every located boundary whose offset from the nearest attractor "
+            "(other argument, 1, 1/4) is <= 0.3 is a window edge: oracle at the kept ulp neighbours on both sides and at 0.5, 0.8, 0.99 of the boundary "
+            "offset (second harness pass) - all such crossings for Fa, Fb, Iabc, lambda_2, FCWu/d, %s per signature pair for the expensive references. "
+            "Lattice representatives (stride %s) at the overall scales 2^e, e in %s. distinct = (function, branch-path signature)"
             % (par["K2"], par["K3"], par["Km"], W, "4th" if quick else "2nd",
-               "0,+-1e-13,-10,-7,-5,-3,-1" if quick else "all", M_BD, sorted(ORACLE_ND)))
+               "0,+-1e-13,-10,-7,-5,-3,-1" if quick else "all", M_BD, sorted(ORACLE_ND),
+               "1-3" if quick else "4-12", "2 cheap / 16 Phi" if quick else "1 cheap / 8 Phi", SCALES_E))
     return ctx.finish(rule, {
         "states": len(states), "transitions": nbd, "traces_validated_against_impl": nchk,
         "points_evaluated_per_function": dict(sorted(npts.items())),
